@@ -388,7 +388,7 @@ def main():
     DATA['log'] = list(LOG)
     out('lifetimes', len(LOG))
     return list(LOG)
-''', hostile=True)
+''', hostile=True, only='C01')
 
 
 P('near_limit', '''
@@ -421,7 +421,7 @@ def main():
     DATA['res'] = res
     out('near_limit', res)
     return res
-''', hostile=True)
+''', hostile=True, only='C01')
 
 
 # --------------------------------------------------------------------------------------------
@@ -499,8 +499,10 @@ def generated(limit=None):
     return _GEN[:limit] if limit else list(_GEN)
 
 
-def names(tier='quick'):
-    return [n for n, (src, meta) in CORPUS.items() if not meta.get('generated')]
+def names(tier='quick', only=None):
+    """Corpus programs. Programs written for one property's oracle (meta only='C01': object lifetimes, recursion close to the limit -
+    where the agent is *expected* to skip its actions) are listed for that check alone."""
+    return [n for n, (src, meta) in CORPUS.items() if not meta.get('generated') and meta.get('only') in (None, only)]
 
 
 class Loaded:
